@@ -6,17 +6,25 @@ attribute TLVs, prefix-SID TLVs, tunnel-encapsulation sub-TLVs, PMSI tunnel type
 generic harness per direction.  A decoder registered tomorrow is swept at the default sizes without touching this file
 (and its unit fails the vacuity guard if nothing decodes within them, which is the signal to give it a shape).
 
-  dec/nlri/<family>[/<route type>]   payload bytes symbolic (concrete TLV/length skeleton where a decoder loops on a
-                                     length) -> the real NLRI.unpack_nlri dispatch -> on paths that decode:
-                                     pack_nlri(negotiated) == the octets consumed, for ALL byte values of the path (z3),
-                                     unless the input is non-canonical per CANON_NLRI (explicit list); ALWAYS:
-                                     decode(pack(decode(x))) is the same object field by field and packs to the same octets
+  dec/nlri/<family>[/<route type>]   octets symbolic (concrete TLV/length skeleton where a decoder loops on a length)
+                                     -> the real NLRI.unpack_nlri dispatch -> on paths that decode:
+                                       (b) canonical(in)  =>  pack_nlri(x) == in, for ALL octet values of the path (z3);
+                                           what is not canonical is the explicit list CANON_NOTES, each with its RFC clause;
+                                       (a) out = pack_nlri(x) is ExaBGP's own encoding: it decodes, whole, to y with
+                                           pack_nlri(y) == out, y == x (the class's own ==), index(y) == index(x),
+                                           hash(y) == hash(x) (on the replayed model)
   dec/attr/<code>[/<sub type>]       same through Attribute.unpack(code, flag, data, negotiated) / pack_attribute (header
-                                     checked and stripped)
-  enc/<kind>                         objects from the factory methods with symbolic fields: unpack(pack(x)) == x field-wise
-  index/<kind>                       two symbolic NLRI of one class: a == b  =>  index/hash equal;  differing family /
-                                     path-id / prefix / RD  =>  different index (z3 on the two index byte strings)
-  text (witness, every decoded path)  two decodes of the same octets render the same json()/str()/extensive()/repr()
+                                     checked and stripped; MP_REACH / MP_UNREACH through MPNLRICollection)
+  enc/nlri/<family>[/<type>]         objects from the factory methods the configuration parser and the API use, every field
+  enc/attr/<attribute>               symbolic: unpack(pack(x)) is of x's class, == x, has x's fields, index and octets
+  index/<family>[/<type>]            two routes of one class from independent symbolic fields:  a == b  =>  index and
+                                     hash equal;  index equal  =>  same path identifier, prefix, route distinguisher;
+                                     the same fields in two families never share an index
+  text (witness, every decoded path) two decodes of the same octets render the same json()/str()/extensive()/repr(); the
+                                     decoded twin of a factory-built object renders like it
+
+Which exceptions may escape a decoder is NOT decided here (property C03): a decoder that raises is a refusal, its class is
+kept in the outcome census (`refused-by-<Exception>`).
 """
 from __future__ import annotations
 
@@ -43,20 +51,59 @@ import exabgp.bgp.message.update.nlri.bgpls.prefixv6 as _m_ls_p6
 
 ID = 'C15'
 LEVEL = 'model_checking'
-TECHNIQUE = ('symbolic execution of the real registered decoders and encoders (z3 over every payload byte of the bound, '
-             'TLV/length skeletons concrete where a decoder loops on a length), registry-driven sweep; text renderings '
-             'compared on one solver model per path')
+TECHNIQUE = ('symbolic execution of the real registered decoders, encoders, factories, index()/__eq__/__hash__ (z3 over every octet / field of '
+             'the bound; TLV/length skeletons concrete where a decoder loops on a length), registry-driven sweep; per-path concrete replay; '
+             'text renderings and C-level hash() compared on one solver model per path')
 ASSUMPTIONS = [
     'logging (log, lazymsg, lazynlri, lazyattribute) has an empty body',
     'sessions come from kits/session.py (real Neighbor from a generated configuration, Negotiated through the real sent()/received()): '
-    'one with every configurable family, one with ADD-PATH send/receive on every configurable family as well; the two families the '
-    'configuration grammar cannot name (ipv6 multicast, ipv4 rtc) are decoded and packed against the same objects (not negotiated: ADD-PATH off)',
+    'one with every configurable family, one with ADD-PATH send/receive on every family the grammar offers it for (unicast, nlri-mpls, mpls-vpn, mup), '
+    'each with 4-octet and 2-octet AS numbers; the two families the configuration grammar cannot name (ipv6 multicast, ipv4 rtc) are decoded and packed '
+    'against the same objects (not negotiated: ADD-PATH off); aigp enabled (AIGP.unpack_attribute answers Discard otherwise)',
     'the per-AFI FlowSpec component tables flow.decode[afi] / flow.factory[afi] are wrapped as SDict (same content), as in C16',
-    'Attribute.unpack is called with the registered flag (EXTENDED_LENGTH bit symbolic): PARTIAL and wrong flags are the business of '
-    'AttributeCollection.parse (C08); refusal of an attribute value is Notify, ValueError or IndexError, the three AttributeCollection.parse handles',
+    'Attribute.unpack is called with the registered flag (EXTENDED_LENGTH bit as packed): PARTIAL and wrong flags are the business of '
+    'AttributeCollection.parse (C08)',
+    'a decoder that raises anything is counted as a refusal (the class is kept in the census): which exceptions may escape is C03',
+    'MP_REACH / MP_UNREACH are decoded by iterating the attribute (they keep the octets and decode lazily) and re-encoded by MPNLRICollection, '
+    'which is what UpdateCollection.messages does; an MP attribute without a route is the End-of-RIB marker and has no re-encoding',
+    'index units: the name `hash` is shadowed in the exabgp.bgp.message.update.nlri.* / exabgp.protocol.ip modules while __hash__ is called, so that it '
+    'returns the KEY it hashes (tuple / octets) and z3 compares keys; classes whose key is a formatted string (NLRI.__hash__, EVPN/MUP/MVPN generic, '
+    'EVPN Prefix, SR-policy) are compared by the real hash() on the model of each path only',
+    'process-wide state reset per path: AttributeCollection.cached/previous, Attribute.cache, classes LinkState.get_ls_class synthesises for unknown TLV codes',
 ]
-BOUNDS = {}
-OUTSIDE = []
+BOUNDS = {
+    'quick': {
+        'dec/nlri': 'every registered family; ipv4/ipv6 unicast+multicast: every NLRI length 0..6 and full+1..2 (ADD-PATH: +4); nlri-mpls: lengths 0..8, 11, full+4, full+7 '
+                    '(1-3 labels), withdraw 3..8, ADD-PATH 4..10; mpls-vpn: 0..4, 9..14, 12+full, withdraw 11..14, ADD-PATH 13..17; flow/flow-vpn: 0..4 (+8) octets (rule rebuilt: '
+                    'normal form only, octet exactness is C16); vpls 0..24; rtc 0..15; sr-policy 0..27; EVPN/MUP/MVPN: per route type the lengths at which it accepts something '
+                    'and their neighbours (EVPN_QUICK/MUP_QUICK/MVPN_QUICK), unknown route type 0..9; BGP-LS NLRI (plain and VPN): protocol-id and TLV types/lengths concrete, every value octet symbolic, '
+                    'node/link/prefix/srv6-sid descriptor shapes of bgpls_shapes() plus one descriptor TLV of 0..7 free octets',
+        'dec/attr': 'every registered attribute code; AS_PATH/AS4_PATH 1-2 segments of 0..3 ASNs (type octet symbolic) on 4- and 2-octet sessions; communities 0..3 elements; '
+                    'every registered extended-community (type, subtype) with the 4 high type bits and 6/18 value octets symbolic; PMSI every known tunnel type; prefix-SID every TLV; '
+                    'tunnel-encap every registered SR-policy sub-TLV (segment type A label entry: 4 concrete patterns, see SEG_A_ENTRIES); AIGP TLV combinations; '
+                    'BGP-LS every registered TLV at lengths 0..8 + its LEN + LS_LENGTH_HINTS (SRv6 End.X TLVs: fixed part + concrete sub-TLV skeleton); MP_REACH/UNREACH 7 families x 1-2 routes',
+        'enc': 'factories: INET/Label/IPVPN every prefix size and mask of ipv4 and ipv6, 1-2 labels (20 bits symbolic), RD 8 octets, path id 4 octets; VPLS, RTC, SR-policy NLRI, '
+               'EVPN 5 types, MUP 4 types x 2 AFI, MVPN 3 types x 2 AFI with every field symbolic over its full range; 21 attribute factories + 11 BGP-LS TLV factories (addresses given as text are concrete)',
+        'index': 'two routes per class; ipv4: every prefix size; ipv6: sizes {0,1,9,13,16} (unicast) / {0,5,6,13,14,16} (labelled, vpn) = boundaries + the sizes at which the index of a route with and '
+                 'without a path identifier have equal length; 1 label',
+    },
+    'thorough': {
+        'dec/nlri': 'as quick, with every length up to full+2 / full+8 / 16+full for the IP families, flow 0..5 (+8), every length 0..62 / 0..72 / 0..50 for EVPN / MUP / MVPN types, descriptor TLV 0..9 free octets',
+        'dec/attr': 'as quick, with communities 0..16 octets, PMSI 0..22, BGP-LS TLVs additionally at 9..16 octets, AS_PATH free octets (1,2,3,6)',
+        'enc': 'as quick, with 3 labels, ADD-PATH withdraws, every TEID size of MUP T2ST',
+        'index': 'every prefix size of ipv4 and ipv6, 1-2 labels',
+    },
+}
+OUTSIDE = [
+    'values not reachable within the listed sizes (e.g. AS_PATH segments over 3 ASNs, the 11 SR-policy segment types other than A and B get the generic sub-TLV treatment only)',
+    'ADD-PATH for families the configuration grammar cannot enable it for (multicast, EVPN, VPLS, FlowSpec, BGP-LS, MVPN, RTC): their decoders take the flag, no session negotiates it',
+    'FlowSpec octet exactness against RFC 8955/8956 (C16); here the rule must reach a normal form in one step',
+    'which exceptions may escape a decoder (C03); PARTIAL / wrong attribute flags (C08); splitting of UPDATEs (C09)',
+    'text-held values (SRv6 SID and IP addresses rendered by inet_ntop, SR-policy names): socket.inet_ntop and str.encode are sampled, so these fields are checked on one model per path, not for all values',
+    'segment type A of an SR-policy segment list: the 32-bit label entry is one of 4 concrete patterns (z3 answers unknown on the OR of four symbolic fields)',
+    'BGP-LS attribute TLV 1108: the last four octets of the fixed part are two concrete patterns on the decode side (see repro_5: the pinned decoder reads them as a sub-TLV header)',
+    'json()/str() are compared between two decodes of the same octets and between a factory-built object and its decoded twin; that the text is CORRECT is not claimed',
+]
 
 
 class _Log:
@@ -393,7 +440,9 @@ def dec_nlri(ctx, afi, safi, data, addpath=False, action=Action.ANNOUNCE, kind=N
         verdict = 'normal-form-only'
         ctx.cover('non-canonical')
     else:
-        chk(ctx, 'reencode', s_implies(canon, sx_eq(out, consumed)), 'C15:dec:nlri:%s:reencode-differs' % kind, lambda: {'in': consumed, 'out': out})
+        if not chk(ctx, 'reencode', s_implies(canon, sx_eq(out, consumed)), 'C15:dec:nlri:%s:reencode-differs' % kind, lambda: {'in': consumed, 'out': out}):
+            # canonical octets did not come back: reported; decoding the wrong octets again adds nothing (and has no bound)
+            return ('decoded', klass, n_used, 'reencode-differs')
         if bool(canon):
             verdict = 'canonical'
             ctx.cover('canonical')
@@ -805,7 +854,8 @@ def dec_attr(ctx, code, flag, shape, asn4=True, kind=None, deep=None):
         ctx.cover('non-canonical')
     else:
         canon = s_and(*shape.canon)
-        chk(ctx, 'reencode', s_implies(canon, sx_eq(value, data)), 'C15:dec:%s:reencode-differs' % kind, lambda: {'in': data, 'out': value})
+        if not chk(ctx, 'reencode', s_implies(canon, sx_eq(value, data)), 'C15:dec:%s:reencode-differs' % kind, lambda: {'in': data, 'out': value}):
+            return ('decoded', klass, 'reencode-differs')
         if bool(canon):
             verdict = 'canonical'
             ctx.cover('canonical')
